@@ -198,6 +198,30 @@ add('C19', 'netsim', 'exploration',
     'reads the ordered log of the proxy socket.', TRUST,
     'DESIGN.md section 6 C19')
 
+add('C11', 'threadsim', 'exploration',
+    'deterministic simulation of real threads under a seeded scheduler: '
+    'bounded pre-emption sweep + random-walk / PCT schedules, wire decoded '
+    'by an independent peer',
+    'Real threads are released one at a time; yield points at every traced '
+    'source line of lomond/*.py, at lock acquire/release, in the middle of '
+    'the split socket write and in poll.  Every schedule with one '
+    'pre-emption is enumerated for each base scenario (complete at bound 1), '
+    'pairs are sampled, seeded schedulers go beyond.  Pre-emption is at '
+    'source-line granularity: a race inside one C call is not modelled.',
+    TRUST + '  SimLock replaces threading.Lock at lomond.session.threading / '
+    'lomond.websocket.threading.', 'DESIGN.md section 6 C11, section 3.3')
+
+add('C12', 'threadsim', 'exploration',
+    'deterministic simulation of real threads under a seeded scheduler: '
+    'bounded pre-emption sweep of close() against sends / closes / the event '
+    'loop, random-walk / PCT schedules beyond',
+    'As C11, with base scenarios that race close() against send_text / '
+    'send_binary / send_ping / close() and against the event-loop thread '
+    'echoing a server Close, answering a Ping or sending an automatic Ping; '
+    'oracle: <= 1 Close, no data frame after it, loser gets WebSocketError.',
+    TRUST + '  SimLock replaces threading.Lock at lomond.session.threading / '
+    'lomond.websocket.threading.', 'DESIGN.md section 6 C12, section 3.3')
+
 ORDER = ['C01', 'C02', 'C03', 'C04', 'C05', 'C06', 'C07', 'C08', 'C09', 'C10',
          'C11', 'C12', 'C13', 'C14', 'C15', 'C16', 'C17', 'C18', 'C19']
 
